@@ -35,6 +35,12 @@ theorem C10_gen_borrow : BorrowOK Gen.Bsp.tables = true := by decide +kernel
 /-- the rebuild loop of `BSP.save` walks `LUMP_REBUILD_ORDER` and pops from the live cache, so a view a
 writer parses during save is still written back when its turn comes. -/
 theorem C10_gen_live_loop : LiveLoop Gen.Bsp.tables = true := by decide +kernel
+/-- every attribute of a BSP object that the class mutates in place (`lumps`, `game_lumps`, `_parsed_lumps`,
+`_texdata`) is bound per instance in `__init__` and has no mutable class-level default — two BSP objects never
+share a lump table, which is what lets the single-object model speak about each object. -/
+theorem C10_gen_instance_state :
+    Gen.Bsp.instanceState.all (fun p => p.2.1 && !p.2.2) = true ∧ Gen.Bsp.instanceState.length ≥ 3 := by
+  decide +kernel
 /-- a reader that stores to a raw lump (`texinfo` empties TEXDATA itself) only does so to a lump its view empties anyway. -/
 theorem C10_gen_reader_stores :
     Gen.Bsp.readerStores.all (fun p => (Gen.Bsp.tables.view p.1).clears.contains p.2) = true := by decide +kernel
